@@ -1,3 +1,4 @@
+import OcppProps.C16Fine
 import OcppProps.CDSim
 import OcppModel.ServerDisp
 import OcppModel.Expected
@@ -99,5 +100,39 @@ example :
     (step (step s .stop).1 .start).1 = (step (CD.init 3) .start).1 ∧
     (run (step (step s .stop).1 .start).1 [.send "c", .reply "c" false]).2 = [.accepted "c", .wrote "c", .resp "c"] := by
   decide
+
+/-! ### Below quiescence: Stop, Start and concurrent senders of the client dispatcher, every interleaving
+(`OcppProps/C16Fine.lean`, small-step model `Ocpp.CdRestart` of the session protocol after /repo 82b951e) -/
+
+/-- no sender ever sends on a closed channel, whatever Stop, Start and the message pumps do meanwhile -/
+theorem fine_never_panics (ls : List Ocpp.CdRestart.Label) (s : Ocpp.CdRestart.St) (h : Ocpp.CdRestart.runL {} ls = some s) :
+    s.panicked = false := C16Fine.never_panics ls s h
+
+/-- a leaving message pump never resets the queue or the channel of a session that is running -/
+theorem fine_never_wiped (ls : List Ocpp.CdRestart.Label) (s : Ocpp.CdRestart.St) (h : Ocpp.CdRestart.runL {} ls = some s) :
+    s.wiped = false := C16Fine.never_wiped ls s h
+
+/-- at most one message pump is alive; a running dispatcher has the pump of its own session -/
+theorem fine_one_pump (ls : List Ocpp.CdRestart.Label) (s : Ocpp.CdRestart.St) (h : Ocpp.CdRestart.runL {} ls = some s) :
+    s.live.length ≤ 1 ∧ ∀ k, s.field = some k → s.live = [k] :=
+  ⟨C16Fine.one_pump ls s h, C16Fine.running_has_own_pump ls s h⟩
+
+/-- IsRunning is false as soon as Stop has returned -/
+theorem fine_stopped_at_once (s s' : Ocpp.CdRestart.St) (hr : s.repaired = true) (h : Ocpp.CdRestart.step s .stop = some s') :
+    s'.field = none := C16Fine.stopped_at_once s s' hr h
+
+/-- before 82b951e: send on a closed channel; the stopped session's pump resets the restarted one; or runs next to its pump -/
+theorem fine_old_send_panics :
+    (Ocpp.CdRestart.runL { repaired := false } [.start, .sendCheck, .stop, .sendWake]).map (·.panicked) = some true :=
+  C16Fine.old_send_panics
+theorem fine_old_restart_wiped :
+    (Ocpp.CdRestart.runL { repaired := false } [.start, .stop, .start, .pumpExit 0]).map (fun s => (s.wiped, s.field, s.live)) =
+      some (true, none, [1]) := C16Fine.old_restart_wiped
+theorem fine_old_two_pumps :
+    (Ocpp.CdRestart.runL { repaired := false } [.start, .stop, .start, .pumpLoop 0]).map (fun s => (s.live, s.serving)) =
+      some ([1, 0], [(0, 1), (1, 1)]) := C16Fine.old_two_pumps
+
+example : (Ocpp.CdRestart.runL {} [.start, .sendCheck, .stop, .sendWake, .pumpExit 0, .start, .sendCheck, .sendWake]).map
+    (fun s => (s.field, s.live, s.panicked, s.wiped)) = some (some 1, [1], false, false) := by decide
 
 end C16
